@@ -16,6 +16,7 @@ var (
 	ErrUnexpectError = errors.New("unexpected error")
 
 	ErrGapLimit                      = errors.New("too many unused address")
+	ErrChildNumTooLarge              = errors.New("address index too large")
 	ErrExceedAllowedNumberPerAccount = errors.New("exceed the maximum allowed number of addresses per account")
 
 	ErrBadTimingForChangingPass = errors.New("not allowed to change private passphrase when unlocked")
